@@ -52,7 +52,7 @@ static int hbudget;
 static int reg_order[NI] = { 0, 1, 2, 3 };
 static int have_usr2;
 
-enum { C_REG, C_UNREG, C_CLEAN, C_EXIT };
+enum { C_REG, C_UNREG, C_CLEAN, C_EXIT, C_FORK };
 
 static int cur_loop(void)
 {
@@ -218,6 +218,33 @@ static void cmd_handler(void *_l)
 	switch (cmd_op[l]) {
 	case C_REG: mc_obs("L%d:reg%d", l, cmd_arg[l]); do_reg(cmd_arg[l]); break;
 	case C_UNREG: mc_obs("L%d:unreg%d", l, cmd_arg[l]); if (I[cmd_arg[l]].reg) do_unreg(cmd_arg[l]); break;
+	case C_FORK: {
+		/* this loop thread forks; the child (which is this thread, with its loop state and its per-thread interests as
+		 * copied memory) registers an interest of its own for SIGUSR1 and receives the signal: none of the parent's business */
+		pid_t pid;
+		int st;
+		mc_obs("L%d:fork-child-registers(flags %d)-and-raises", l, cmd_arg[l]);
+		sched_atomic_begin();
+		pid = env_fork_like_app();
+		if (pid == 0) {
+			static struct iv_signal cs;
+			IV_SIGNAL_INIT(&cs);
+			cs.signum = SIGUSR1;
+			cs.flags = cmd_arg[l];
+			cs.cookie = NULL;
+			cs.handler = NULL;
+			if (iv_signal_register(&cs) != 0)
+				_exit(3);
+			raise(SIGUSR1);
+			_exit(0);
+		}
+		while (waitpid(pid, &st, 0) < 0 && errno == EINTR)
+			;
+		sched_atomic_end();
+		if (!WIFEXITED(st) || WEXITSTATUS(st))
+			mc_fail("sig-child", "child of loop %d ended with status 0x%x", l, st);
+		break;
+	}
 	case C_CLEAN:
 		for (i = 0; i < NI; i++)
 			if (I[i].reg == 1 && I[i].thr == l)
@@ -298,6 +325,10 @@ static void driver(void *dummy)
 			if (I[i].present) { menu[n] = I[i].reg ? 3 : 2; arg[n++] = i; }
 		menu[n] = 4; arg[n++] = 0;
 		menu[n] = 4; arg[n++] = 1;
+		for (i = 0; i < NI; i++)
+			if (I[i].reg && I[i].thr == 0 && I[i].sig == SIGUSR1)
+				break;
+		if (i < NI && others_for(SIGUSR1)) { menu[n] = 7; arg[n++] = 0; menu[n] = 7; arg[n++] = IV_SIGNAL_FLAG_THIS_THREAD; }
 		if (steps == 0) { menu[n] = 0; arg[n++] = 0; }
 		c = mc_choose(n, MC_ACTION, "driver-step");
 		if (menu[c] == 0)
@@ -337,6 +368,7 @@ static void driver(void *dummy)
 			sched_signal_defer = 0;
 			sched_signal_atomic = 1;
 			break;
+		case 7: command(0, C_FORK, arg[c]); break;
 		case 2: command(I[arg[c]].thr, C_REG, arg[c]); break;
 		case 3: command(I[arg[c]].thr, C_UNREG, arg[c]); break;
 		case 4: {
